@@ -680,6 +680,11 @@ func (x *X) doRegister(op tr.Line, g int, fn string, eng gnet.Engine, ch chan us
 			c, err := net.Dial("tcp", x.aux.Addr().String())
 			if err == nil {
 				nc = c
+				if !dialok {
+					// a connection the caller has already closed: the worker cannot duplicate its descriptor,
+					// the one result must be an error (same outcome as a failing dial)
+					nc.Close()
+				}
 			}
 		}
 		if fn == "register" && nc != nil {
@@ -714,7 +719,7 @@ func (x *X) doRegister(op tr.Line, g int, fn string, eng gnet.Engine, ch chan us
 			x.mu.Lock()
 			k := x.nWorkers
 			x.nWorkers++
-			if dialok || tgt == "conn" {
+			if dialok {
 				cr.cid = x.nextCid
 				x.nextCid++
 			}
